@@ -11,7 +11,13 @@ Record info : Type := mkInfo { i_span : span; i_toks : string }.
 Record path : Type := mkPath { p_info : info; p_leading : bool; p_segs : list (string * string) }.
 
 (** util/path_to_string.rs: idents joined by "::"; leading colon and arguments ignored. *)
-Definition path_to_string (p : path) : string := join "::" (map fst (p_segs p)).
+(** a raw identifier ([r#type]) reads as the name it stands for *)
+Definition unraw (s : string) : string :=
+  match s with
+  | String "r" (String "#" rest) => rest
+  | _ => s
+  end.
+Definition path_to_string (p : path) : string := join "::" (map (fun seg => unraw (fst seg)) (p_segs p)).
 
 (** [syn::Path::get_ident] *)
 Definition get_ident (p : path) : option string :=
